@@ -3,5 +3,16 @@
 // Export shim added to package yggdrasil/user through `go build -overlay` (see overlays/gen.sh); never part of the repository.
 package user
 
+import "crypto/rsa"
+
 // VerifEmbeddedKeyDER returns a copy of the embedded Mojang services key (the bytes VerifySignature verifies against).
 func VerifEmbeddedKeyDER() []byte { return append([]byte(nil), pubKeyBytes...) }
+
+// VerifSetServicesKey replaces the trust anchor VerifySignature checks against (the embedded Mojang services key) and
+// returns a function that puts the original back. With a key whose private half the harness owns, genuine signatures
+// exist and the positive direction of the verification glue can be exercised.
+func VerifSetServicesKey(k *rsa.PublicKey) (restore func()) {
+	old := pubKey
+	pubKey = k
+	return func() { pubKey = old }
+}
